@@ -82,7 +82,7 @@ def cases(tier, seed):
         out.append({"k": "pickle", "i0": i0, "i1": min(len(inputs), i0 + 40)})
     tinputs = [x for x in inputs if x[2] != "complex"]
     for i0 in range(0, len(tinputs), 12):
-        out.append({"k": "text", "i0": i0, "i1": min(len(tinputs), i0 + 12)})
+        out.append({"k": "text", "i0": i0, "i1": min(len(tinputs), i0 + 12), "tier": tier})
     out.append({"k": "plain"})
     return out
 
@@ -154,7 +154,7 @@ def run_case(case, R):
                                                 ["stringio", "path", "pathlib"], ["numpoly", "numpy"]))
                 # every option value with every other pairwise is overkill per input: full product on the first input
                 # of the block, the diagonal slices on the others (still every value of every option per input)
-                if (case["i0"] + inputs.index((shape, names, kind, label, var, sp))) % 6:
+                if case.get("tier") != "thorough" and (case["i0"] + inputs.index((shape, names, kind, label, var, sp))) % 6:
                     combos = [c for i, c in enumerate(combos) if i % 7 == 0]
                 for fmt, delim, header, comments, target, spelling in combos:
                     R.tr()
